@@ -10,7 +10,7 @@ for m in re.finditer(r"```diff\n(.*?)```", s, re.S):
     sys.stdout.write(m.group(1))
 P
 cd /repo
-git apply --check /tmp/inbox.patch 2>/dev/null || { echo "plain apply failed, trying 3way/fuzzy"; patch -p1 --dry-run < /tmp/inbox.patch || exit 1; patch -p1 < /tmp/inbox.patch; APPLIED=1; }
+git apply --check /tmp/inbox.patch 2>/dev/null || { echo "plain apply failed, trying 3way/fuzzy"; patch -p1 --batch --forward --dry-run < /tmp/inbox.patch || exit 1; patch -p1 --batch --forward < /tmp/inbox.patch; APPLIED=1; }
 [ -z "${APPLIED:-}" ] && git apply /tmp/inbox.patch
 gofmt -l . | grep . && echo "(gofmt issues above)"
 /verif/tools-fixcommit.sh "$msg" | tail -2
